@@ -2155,7 +2155,7 @@ Proof.
         now destruct (validate_In cfg n t Hv Hnt).
       + intros n T. fold (initial (keys (cf_targets cfg))). change (map (fun n0 : string => (n0, None)) (keys (cf_targets cfg)))
           with (ps_cache (initial (keys (cf_targets cfg)))). rewrite Hinit.
-        destruct (existsb _ _); [|discriminate]. intros E; inversion E; subst T. split; [exact I|].
+        destruct (existsb _ _); [|discriminate]. intros E; inversion E as [E1]. split; [exact I|].
         intros k g. cbn. discriminate.
       + intros g r. cbn. discriminate.
     - cbn. reflexivity. }
